@@ -6,21 +6,25 @@ Rw(v) == [op |-> "rw", v |-> v]
 Fl == [op |-> "fl", v |-> 0]
 Reg == [op |-> "reg", v |-> 0]
 \* gate: one writer (no overlapping writes possible), two writers x two lines, three writers x one line
-Gate1 == [prog |-> << <<Gw(1), Gw(2), Gw(3)>>, <<Fl>> >>, n |-> 1]
-Gate22 == [prog |-> << <<Gw(1), Gw(2)>>, <<Gw(3), Gw(4)>>, <<Fl>> >>, n |-> 1]
-Gate111 == [prog |-> << <<Gw(1)>>, <<Gw(2)>>, <<Gw(3)>>, <<Fl>> >>, n |-> 1]
+Gate1 == [prog |-> << <<Gw(1), Gw(2), Gw(3)>>, <<Fl>> >>, n |-> 1, fx |-> FALSE]
+Gate22 == [prog |-> << <<Gw(1), Gw(2)>>, <<Gw(3), Gw(4)>>, <<Fl>> >>, n |-> 1, fx |-> FALSE]
+Gate111 == [prog |-> << <<Gw(1)>>, <<Gw(2)>>, <<Gw(3)>>, <<Fl>> >>, n |-> 1, fx |-> FALSE]
 \* ring sizes 1..3: two writers x two lines, monitor attached at any point
-Ring22(n) == [prog |-> << <<Rw(1), Rw(2)>>, <<Rw(3), Rw(4)>>, <<Reg>> >>, n |-> n]
-Ring13(n) == [prog |-> << <<Rw(1), Rw(2), Rw(3), Rw(4)>>, <<Reg>> >>, n |-> n]
-Ring111(n) == [prog |-> << <<Rw(1)>>, <<Rw(2)>>, <<Rw(3)>>, <<Reg>> >>, n |-> n]
+Ring22(n) == [prog |-> << <<Rw(1), Rw(2)>>, <<Rw(3), Rw(4)>>, <<Reg>> >>, n |-> n, fx |-> FALSE]
+Ring13(n) == [prog |-> << <<Rw(1), Rw(2), Rw(3), Rw(4)>>, <<Reg>> >>, n |-> n, fx |-> FALSE]
+Ring111(n) == [prog |-> << <<Rw(1)>>, <<Rw(2)>>, <<Rw(3)>>, <<Reg>> >>, n |-> n, fx |-> FALSE]
 MCGate == {Gate1, Gate22, Gate111}
 MCGateSeq == {Gate1}
 MCRing == { Ring22(n) : n \in 1..3 } \cup { Ring13(n) : n \in 1..3 } \cup { Ring111(n) : n \in 1..2 }
 MCAll == MCGate \cup MCRing
 \* quick tier: the same shapes with fewer lines
-Gate12 == [prog |-> << <<Gw(1), Gw(2)>>, <<Fl>> >>, n |-> 1]
-Gate21 == [prog |-> << <<Gw(1), Gw(2)>>, <<Gw(3)>>, <<Fl>> >>, n |-> 1]
-Ring21(n) == [prog |-> << <<Rw(1), Rw(2)>>, <<Rw(3)>>, <<Reg>> >>, n |-> n]
+Gate12 == [prog |-> << <<Gw(1), Gw(2)>>, <<Fl>> >>, n |-> 1, fx |-> FALSE]
+Gate21 == [prog |-> << <<Gw(1), Gw(2)>>, <<Gw(3)>>, <<Fl>> >>, n |-> 1, fx |-> FALSE]
+Ring21(n) == [prog |-> << <<Rw(1), Rw(2)>>, <<Rw(3)>>, <<Reg>> >>, n |-> n, fx |-> FALSE]
 MCQuick == {Gate12, Gate21} \cup { Ring21(n) : n \in 1..3 } \cup { Ring13(n) : n \in 2..3 }
 MCGateOverlap == {Gate21}
+\* the same gate programs on the fixed-code variant: C29 must hold with no waiver (INVARIANT C29Strict)
+Fixed(p) == [p EXCEPT !.fx = TRUE]
+MCFixed == { Fixed(p) : p \in MCGate }
+MCFixedQuick == { Fixed(p) : p \in {Gate12, Gate21, Gate1} }
 =============================================================================
